@@ -278,6 +278,27 @@ contains
 end subroutine kernel
 """),
 }
+# A failing case is only attributed to a listed root cause if its spec has the generator trigger of that root cause switched ON.
+# While a defect is present its trigger is off in every searched spec, so whatever the search finds gets an unlisted signature,
+# even if it looks like a listed root cause in the transformed IR (a recogniser can be fooled; a wrong attribution would hide a
+# new defect). The stored replay specs have the triggers on.
+TRIGGERS = {
+    'extract:derived-type-imported-by-enclosing-module':
+        lambda sp, fl: bool(fl.get('int_host_dtype')) and not fl.get('routine_use') and sp['ep'] != 'trafo_file',
+    'extract:host-array-referenced-in-several-forms': lambda sp, fl: bool(fl.get('int_host_multiref')),
+    'extract:host-parameter-becomes-dummy-argument': lambda sp, fl: bool(fl.get('int_host_param')),
+    'outline:array-extent-variable-not-passed':
+        lambda sp, fl: bool(fl.get('reg_dimvar_implicit')) and bool(fl.get('reg_dimvar') or fl.get('reg_param_dim')),
+    'outline:variable-only-enquired-about-not-passed': lambda sp, fl: bool(fl.get('reg_inquiry_only')),
+    'outline:variable-spelled-in-different-letter-case': lambda sp, fl: bool(fl.get('mixed_case')),
+    'outline:parameter-declared-after-use-as-extent': lambda sp, fl: bool(fl.get('reg_param_dim')),
+    'extract:new-dummy-is-inout-though-only-read': lambda sp, fl: bool(fl.get('int_host_loopvar') or fl.get('int_pure_host')),
+    'extract:call-between-internal-procedures-not-updated': lambda sp, fl: bool(fl.get('int_calls_int')),
+    'transform_file:keyword-arguments-to-external-procedure':
+        lambda sp, fl: sp['ep'] == 'trafo_file' and bool(sp.get('opts', {}).get('extract_internals')),
+    'transform_file:extracted-function-undeclared-in-caller':
+        lambda sp, fl: sp['ep'] == 'trafo_file' and bool(sp.get('opts', {}).get('extract_internals')),
+}
 _present = {}
 
 
@@ -431,7 +452,10 @@ def diagnose(spec):
                             found.add('outline:parameter-declared-after-use-as-extent')
                 declared_so_far.add(v.name.lower())
             args = {a.name.lower() for a in r.arguments}
-            if any(v.type.intent and v.name.lower() not in args for v in r.variables):
+            enquired = {v.name.lower() for c in FindInlineCalls().visit(r.body)
+                        if str(c.function.name).lower() in ('size', 'lbound', 'ubound', 'present')
+                        for v in FindVariables().visit(c.parameters)}
+            if any(v.type.intent and v.name.lower() not in args and v.name.lower() in enquired for v in r.variables):
                 found.add('outline:variable-only-enquired-about-not-passed')
         if spec['ep'] == 'trafo_file' and app['extract'] and r.name.lower() in old_names:
             declared = {v.name.lower() for v in r.variables}
@@ -486,6 +510,9 @@ class Check(GI.XCheck):
     def signature(self, spec, coarse):
         compile_class = coarse.startswith('candidate-does-not-compile')
         for cause in diagnose(spec):
+            kind = 'outline' if cause.startswith('outline:') else 'extract'
+            if not TRIGGERS[cause](spec, spec['flags']) or not GEN.what_applies(spec)[kind]:
+                continue
             crash = cause == 'extract:derived-type-imported-by-enclosing-module'
             if (crash and coarse == 'loki-raises:KeyError') or (not crash and compile_class):
                 return f'{self.pid}:{cause}'
